@@ -139,6 +139,8 @@ Accounting(buf, out, allow) ==
      ELSE IF \E i \in 1..np : out[i].k = "err" THEN "error-not-last"
      ELSE IF used > Len(buf) THEN "overrun"
      ELSE IF \E i \in 1..np : ObsVersion(out[i]) # U16At(buf, ObsStarts(out)[i] + 1) THEN "version-mismatch"
+     \* (a V9 packet's own header bounds the flowsets that belong to it)
+     ELSE IF \E i \in 1..np : out[i].k = "v9" /\ Len(out[i].sets) > out[i].hdr.count THEN "v9-more-flowsets-than-count"
      ELSE IF np < n /\ out[n].rem # Rest(buf, used + 1) THEN "suffix"
      ELSE IF np < n /\ used >= Len(buf) THEN "error-without-bytes"
      ELSE IF np = n /\ used < Len(buf) /\ ~(Len(buf) - used >= 2 /\ U16At(buf, used + 1) \notin allow)
